@@ -5,13 +5,30 @@ import re
 from collections import defaultdict, deque
 
 
-class Fn:
-    __slots__ = ("rec", "id", "blocks", "krate", "_succ", "_pred", "_dom", "_defs", "_reach", "_pdom")
+_HEAD = re.compile(r'^\{"k":"fn","id":"((?:[^"\\]|\\.)*)","kind":"([^"]*)"')
+_NAME = re.compile(r'"name":"((?:[^"\\]|\\.)*)","argc"')
 
-    def __init__(self, rec, krate):
-        self.rec = rec
-        self.id = rec["id"]
-        self.blocks = rec["blocks"]
+
+class Fn:
+    """one function body; the JSON line is parsed lazily on first access to `rec`/`blocks`"""
+    __slots__ = ("_rec", "_raw", "id", "krate", "kind", "_name", "_succ", "_pred", "_dom", "_defs", "_reach", "_pdom")
+
+    def __init__(self, raw, krate):
+        self._raw = raw
+        self._rec = None
+        m = _HEAD.match(raw)
+        if m and "\\" not in m.group(1):
+            self.id = m.group(1)
+            self.kind = m.group(2)
+            n = _NAME.search(raw, m.end(), m.end() + 1500)
+            self._name = n.group(1) if n else None
+        else:
+            r = json.loads(raw)
+            self._rec = r
+            self._raw = None
+            self.id = r["id"]
+            self.kind = r["kind"]
+            self._name = r.get("name")
         self.krate = krate
         self._succ = None
         self._pred = None
@@ -20,10 +37,27 @@ class Fn:
         self._reach = None
         self._pdom = None
 
+    @property
+    def rec(self):
+        if self._rec is None:
+            self._rec = json.loads(self._raw)
+            self._raw = None
+        return self._rec
+
+    @property
+    def blocks(self):
+        return self.rec["blocks"]
+
+    def mentions(self, *subs):
+        """cheap prefilter: does the (unparsed) record text contain all substrings?  True once parsed."""
+        if self._raw is None:
+            return True
+        return all(x in self._raw for x in subs)
+
     # ------------------------------------------------------------- basics
     @property
     def name(self):
-        return self.rec.get("name")
+        return self._name
 
     @property
     def span(self):
@@ -518,12 +552,15 @@ class DB:
         cnt = defaultdict(int)
         with open(os.path.join(self.dir, name + ".jsonl")) as f:
             for line in f:
+                if line.startswith('{"k":"fn"'):
+                    cnt["fn"] += 1
+                    fn = Fn(line, name)
+                    self.fns[fn.id] = fn
+                    continue
                 r = json.loads(line)
                 k = r["k"]
                 cnt[k] += 1
-                if k == "fn":
-                    self.fns[r["id"]] = Fn(r, name)
-                elif k == "adt":
+                if k == "adt":
                     self.adts[r["id"]] = r
                 elif k == "impl":
                     r["crate"] = name
